@@ -9,7 +9,7 @@ from ..harness import Violation
 from . import c01
 
 LEVEL = "exploration"
-CLASSES = ("small", "near8", "over8", "near16", "over16")
+CLASSES = ("small", "near8", "over8", "near16", "over16", "mult256")
 RULE = (
     "Base case: label-map pair (1-3-D, derived predictions) with labels 1..n in uint8/uint16; transformed copy: labels "
     "renamed injectively (prediction and reference independently; jointly for matched input) into the classes {1..5, "
@@ -86,9 +86,11 @@ def check(case, stats):
     prod = max(pm.values(), default=0) * (max(rm.values(), default=0) + 1)
     if prod >= 2**32:
         classes.append("pair_product>=2^32")
-    for nm, (lo, hi) in gen.LABEL_CLASSES.items():
-        if any(lo <= v <= hi for v in vals):
+    for nm, rng in gen.LABEL_CLASSES.items():
+        if rng is not None and any(rng[0] <= v <= rng[1] for v in vals):
             classes.append(f"labels:{nm}")
+    if any(v % 256 == 0 for v in vals):
+        classes.append("labels:multiple_of_256")
     if vals and np.dtype(case["dtype2"]).kind == "u" and mx + len(pm) > np.iinfo(case["dtype2"]).max:
         classes.append("fresh_labels_past_dtype_max")
     stats.record(case, base["dict"].get("tp", 0) > 0 and leaves_small, classes)
